@@ -148,16 +148,15 @@ theorem StepOutcome.frame {fl env s c s' m} (h : StepOutcome fl env s c s' m) {n
   · rw [h.2.1, Cmd.applyTo_other c s.refs hn]
 
 /-- what the step means for the commanded ref itself -/
-def CmdResult (fl : Flags) (before : Refs) (store : Store) (after : Option Id) (c : Cmd) (m : Bytes) : Prop :=
+def CmdResult (fl : Flags) (before : Refs) (after : Option Id) (c : Cmd) (m : Bytes) : Prop :=
   (after = before c.name ∧ (m = okMsg → cur before c.name ≠ c.old ∧ fl.useCas = false)) ∨
-  (cur before c.name = c.old ∧ after = c.target ∧ m = okMsg ∧
-    (isZero c.new = false → fl.checkNew = true → store c.new = true))
+  (cur before c.name = c.old ∧ after = c.target ∧ m = okMsg)
 
 theorem StepOutcome.result {fl env s c s' m} (h : StepOutcome fl env s c s' m) :
-    CmdResult fl s.refs s.store (s'.refs c.name) c m := by
+    CmdResult fl s.refs (s'.refs c.name) c m := by
   obtain ⟨_, h | h⟩ := h
   · exact Or.inl ⟨by rw [h.1], h.2⟩
-  · exact Or.inr ⟨h.1, by rw [h.2.1, Cmd.applyTo_self], h.2.2.1, h.2.2.2.2⟩
+  · exact Or.inr ⟨h.1, by rw [h.2.1, Cmd.applyTo_self], h.2.2.1⟩
 
 /-! ### the loops -/
 
@@ -228,7 +227,7 @@ status entry, related to the ref before/after as `CmdResult` says. -/
 theorem runLoop_cmd {fl env step} (hs : StepSpec fl env step) (s : Srv) (cmds : List Cmd)
     (hnd : (cmds.map (·.name)).Nodup) (hr : (runLoop step s cmds).raised = none) :
     ∀ c ∈ cmds, ∃ m, (runLoop step s cmds).status.lookup c.name = some m ∧
-      CmdResult fl s.refs s.store ((runLoop step s cmds).srv.refs c.name) c m := by
+      CmdResult fl s.refs ((runLoop step s cmds).srv.refs c.name) c m := by
   induction cmds generalizing s with
   | nil => intro c hc; cases hc
   | cons c0 cs ih =>
@@ -255,7 +254,7 @@ theorem runLoop_cmd {fl env step} (hs : StepSpec fl env step) (s : Srv) (cmds : 
         · have : (c.name == c0.name) = false := by simpa using hne
           simp [List.lookup, this, hm]
         · unfold CmdResult cur at hres ⊢
-          rw [hso.frame hne, hso.1] at hres
+          rw [hso.frame hne] at hres
           exact hres
 
 /-- without the status (also when an exception escaped): a stale command leaves its ref untouched, a ref
@@ -360,8 +359,8 @@ theorem atomicApply_all {fl : Flags} {env : Env} {caps : List Bytes} (s : Srv) (
   | cons c0 cs ih =>
     simp only [List.map_cons, List.nodup_cons] at hnd
     obtain ⟨hf0, hold0, hnew0⟩ := hok c0 List.mem_cons_self
-    have hstep := updateRef_success (fl := fl) (caps := caps) hf0 hold0 hnew0
-    have hs := updateRef_spec fl env caps false
+    have hstep := updateRef_success (fl := fl.noCheck) (caps := caps) hf0 hold0 hnew0
+    have hs := updateRef_spec fl.noCheck env caps false
     have hrest : ∀ c ∈ cs, env.fault c.name = none ∧
         cur (⟨c0.applyTo s.refs, s.store⟩ : Srv).refs c.name = c.old ∧
         (isZero c.new = false → (⟨c0.applyTo s.refs, s.store⟩ : Srv).store c.new = true) := by
@@ -407,10 +406,29 @@ theorem validateAll_names {fl env caps s} (cmds : List Cmd) {rs f}
         obtain ⟨rfl, _⟩ := h
         simp [ih hv]
 
-/-- with the repaired validation, a validation without failure means every command is applicable -/
-theorem validateAll_pass {fl : Flags} {env caps s} (ha : fl.atomicOld = true) (hn : fl.checkNew = true)
+/-- one validated command that did not fail -/
+theorem validate_pass {fl : Flags} {env caps s} {c : Cmd} {m : Bytes}
+    (h : validate fl env caps s c = .ok (m, false)) :
+    (fl.atomicOld = true → cur s.refs c.name = c.old) ∧
+    (fl.atomicNew = true → isZero c.new = false → s.store c.new = true) := by
+  unfold validate at h
+  split at h
+  · cases h
+  · split at h
+    · cases h
+    · split at h
+      · cases h
+      · rename_i hmiss
+        split at h
+        · cases h
+        · rename_i hstale
+          refine ⟨fun ha => by simpa [ha] using hstale, fun hn hz => by simpa [hn, hz] using hmiss⟩
+
+/-- a validation without failure means every command passed its own validation -/
+theorem validateAll_pass {fl : Flags} {env caps s}
     (cmds : List Cmd) {rs} (h : validateAll fl env caps s cmds = .ok (rs, false)) :
-    ∀ c ∈ cmds, cur s.refs c.name = c.old ∧ (isZero c.new = false → s.store c.new = true) := by
+    ∀ c ∈ cmds, (fl.atomicOld = true → cur s.refs c.name = c.old) ∧
+      (fl.atomicNew = true → isZero c.new = false → s.store c.new = true) := by
   induction cmds generalizing rs with
   | nil => intro c hc; cases hc
   | cons c0 cs ih =>
@@ -425,22 +443,7 @@ theorem validateAll_pass {fl : Flags} {env caps s} (ha : fl.atomicOld = true) (h
         obtain ⟨_, rfl, rfl⟩ := h
         intro c hc
         rcases List.mem_cons.mp hc with rfl | hc
-        · unfold validate at hv0
-          split at hv0
-          · cases hv0
-          · simp only [ha, hn, Bool.true_and] at hv0
-            split at hv0
-            · cases hv0
-            · rename_i hdel
-              split at hv0
-              · cases hv0
-              · rename_i hmiss
-                split at hv0
-                · cases hv0
-                · rename_i hstale
-                  refine ⟨by simpa using hstale, ?_⟩
-                  intro hz
-                  simpa [hz] using hmiss
+        · exact validate_pass hv0
         · exact ih hv c hc
 
 theorem lookup_isSome_of_mem {l : List (Bytes × Bytes)} {n : Bytes} (h : n ∈ l.map (·.1)) :
@@ -486,7 +489,7 @@ theorem refLoop_store (fl : Flags) (env : Env) (caps : List Bytes) (hs : HookSan
   · split
     · rfl
     · rfl
-    · exact runLoop_store (updateRef_spec fl env caps false) s cmds
+    · exact runLoop_store (updateRef_spec fl.noCheck env caps false) s cmds
   · exact runLoop_store (plainStep_spec fl env caps hs) s cmds
 
 theorem refLoop_only_commanded (fl : Flags) (env : Env) (caps : List Bytes) (hs : HookSane env) (s : Srv)
@@ -498,7 +501,7 @@ theorem refLoop_only_commanded (fl : Flags) (env : Env) (caps : List Bytes) (hs 
   · split
     · exact Or.inl rfl
     · exact Or.inl rfl
-    · exact runLoop_only_commanded (updateRef_spec fl env caps false) s cmds n
+    · exact runLoop_only_commanded (updateRef_spec fl.noCheck env caps false) s cmds n
   · exact runLoop_only_commanded (plainStep_spec fl env caps hs) s cmds n
 
 theorem refLoop_ref (fl : Flags) (env : Env) (caps : List Bytes) (hs : HookSane env) (s : Srv)
@@ -510,14 +513,14 @@ theorem refLoop_ref (fl : Flags) (env : Env) (caps : List Bytes) (hs : HookSane 
   · split
     · exact fun _ _ => Or.inl rfl
     · exact fun _ _ => Or.inl rfl
-    · exact runLoop_ref (updateRef_spec fl env caps false) s cmds hnd
+    · exact runLoop_ref (updateRef_spec fl.noCheck env caps false) s cmds hnd
   · exact runLoop_ref (plainStep_spec fl env caps hs) s cmds hnd
 
 theorem refLoop_cmd (fl : Flags) (env : Env) (caps : List Bytes) (hs : HookSane env) (s : Srv)
     (cmds : List Cmd) (hnd : (cmds.map (·.name)).Nodup)
     (hr : (refLoop fl env caps s cmds).raised = none) :
     ∀ c ∈ cmds, ∃ m, (refLoop fl env caps s cmds).status.lookup c.name = some m ∧
-      CmdResult fl s.refs s.store ((refLoop fl env caps s cmds).srv.refs c.name) c m := by
+      CmdResult fl s.refs ((refLoop fl env caps s cmds).srv.refs c.name) c m := by
   unfold refLoop at hr ⊢
   by_cases hat : caps.contains Gen.ReceivePack.atomicCap = true
   · rw [if_pos hat] at hr ⊢
@@ -534,7 +537,7 @@ theorem refLoop_cmd (fl : Flags) (env : Env) (caps : List Bytes) (hs : HookSane 
       exact ⟨m, hm, Or.inl ⟨rfl, fun e => absurd e (failAll_ne_ok rs _ hin)⟩⟩
     · rename_i rs hv
       simp only [hv] at hr
-      exact runLoop_cmd (updateRef_spec fl env caps false) s cmds hnd hr
+      exact runLoop_cmd (updateRef_spec fl.noCheck env caps false) s cmds hnd hr
   · rw [if_neg hat] at hr ⊢
     exact runLoop_cmd (plainStep_spec fl env caps hs) s cmds hnd hr
 
@@ -559,22 +562,28 @@ theorem refLoop_status_names (fl : Flags) (env : Env) (caps : List Bytes) (s : S
 
 theorem refLoop_inStore (fl : Flags) (env : Env) (caps : List Bytes) (hs : HookSane env) (s : Srv)
     (cmds : List Cmd)
-    (hnew : ∀ c ∈ cmds, isZero c.new = false → fl.checkNew = false → s.store c.new = true)
+    (hplain : ∀ c ∈ cmds, isZero c.new = false → fl.checkNew = false → s.store c.new = true)
+    (hatomic : ∀ c ∈ cmds, isZero c.new = false → fl.atomicNew = false → s.store c.new = true)
     (hi : RefsInStore s) : RefsInStore (refLoop fl env caps s cmds).srv := by
   unfold refLoop
   split
   · split
     · exact hi
     · exact hi
-    · exact runLoop_inStore (updateRef_spec fl env caps false) s cmds hnew hi
-  · exact runLoop_inStore (plainStep_spec fl env caps hs) s cmds hnew hi
+    · rename_i rs hv
+      apply runLoop_inStore (updateRef_spec fl.noCheck env caps false) s cmds _ hi
+      intro c hc hz _
+      cases han : fl.atomicNew with
+      | true => exact (validateAll_pass cmds hv c hc).2 han hz
+      | false => exact hatomic c hc hz han
+  · exact runLoop_inStore (plainStep_spec fl env caps hs) s cmds hplain hi
 
 /-- all-or-nothing under `atomic`, provided the commands that reach the apply loop are applicable:
 either by hypothesis (`happ`, any flags) or because the repaired validation loop established it. -/
 theorem refLoop_atomic (fl : Flags) (env : Env) (caps : List Bytes) (s : Srv) (cmds : List Cmd)
     (hat : caps.contains Gen.ReceivePack.atomicCap = true)
     (hnd : (cmds.map (·.name)).Nodup) (hf : ∀ c ∈ cmds, env.fault c.name = none)
-    (happ : (fl.atomicOld = true ∧ fl.checkNew = true) ∨
+    (happ : (fl.atomicOld = true ∧ fl.atomicNew = true) ∨
       ∀ c ∈ cmds, cur s.refs c.name = c.old ∧ (isZero c.new = false → s.store c.new = true)) :
     (refLoop fl env caps s cmds).srv.refs = s.refs ∨
       ∀ c ∈ cmds, (refLoop fl env caps s cmds).srv.refs c.name = c.target := by
@@ -587,7 +596,7 @@ theorem refLoop_atomic (fl : Flags) (env : Env) (caps : List Bytes) (s : Srv) (c
     right
     have hall : ∀ c ∈ cmds, cur s.refs c.name = c.old ∧ (isZero c.new = false → s.store c.new = true) := by
       rcases happ with ⟨ha, hn⟩ | h
-      · exact validateAll_pass ha hn cmds hv
+      · exact fun c hc => ⟨(validateAll_pass cmds hv c hc).1 ha, (validateAll_pass cmds hv c hc).2 hn⟩
       · exact h
     exact (atomicApply_all s cmds hnd (fun c hc => ⟨hf c hc, hall c hc⟩)).2.1
 
@@ -647,49 +656,51 @@ theorem localApplied_other (r : Refs) (c : Name × Id) {n : Name} (h : n ≠ c.1
   unfold localApplied Refs.del Refs.set
   split <;> simp [h]
 
-/-- One iteration: success is recorded exactly when the current value equals the old value the client read;
-then the ref holds the requested value, otherwise nothing changed.  Uses `Gen.localUsesCasResult = true`
-(the source tests `if not target.refs.set_if_equals(...)`). -/
-theorem localStep_spec (snap : Refs) (t : LocalRepo) (c : Name × Id) :
-    (localStep snap t c).1.store = t.store ∧
-    ((cur t.refs c.1 = snapOld snap c.1 ∧ (localStep snap t c).2 = none ∧
-        (localStep snap t c).1.refs = localApplied t.refs c) ∨
-     (cur t.refs c.1 ≠ snapOld snap c.1 ∧ (localStep snap t c).2 ≠ none ∧
-        (localStep snap t c).1.refs = t.refs)) := by
-  have hg : Gen.ReceivePack.localUsesCasResult = true := rfl
+/-- One iteration, for every behaviour that takes the status from the compare-and-swap: success is recorded
+only when the current value equals the old value the client read (and, with `checksNew`, the target has the
+new object); then the ref holds the requested value.  Otherwise a failure is recorded and nothing changed. -/
+theorem localStep_spec (lf : LocalFlags) (hcas : lf.usesCas = true) (snap : Refs) (t : LocalRepo) (c : Name × Id) :
+    (localStep lf snap t c).1.store = t.store ∧
+    ((cur t.refs c.1 = snapOld snap c.1 ∧ (localStep lf snap t c).2 = none ∧
+        (localStep lf snap t c).1.refs = localApplied t.refs c ∧
+        (isZero c.2 = false → lf.checksNew = true → t.store c.2 = true)) ∨
+     ((localStep lf snap t c).2 ≠ none ∧ (localStep lf snap t c).1.refs = t.refs ∧
+        (lf.checksNew = false → cur t.refs c.1 ≠ snapOld snap c.1))) := by
   unfold localStep localApplied removeIfEquals setIfEquals
   by_cases hz : isZero c.2 = true <;> by_cases hc : cur t.refs c.1 = snapOld snap c.1 <;>
-    simp [hz, hc, hg]
+    by_cases hk : lf.checksNew = true <;> by_cases hst : t.store c.2 = true <;>
+    simp [hz, hc, hcas, hk, hst]
 
-theorem localApply_store (snap : Refs) (t : LocalRepo) (cmds : List (Name × Id)) :
-    (localApply snap t cmds).1.store = t.store := by
+theorem localApply_store (lf : LocalFlags) (hcas : lf.usesCas = true) (snap : Refs) (t : LocalRepo)
+    (cmds : List (Name × Id)) : (localApply lf snap t cmds).1.store = t.store := by
   induction cmds generalizing t with
   | nil => rfl
   | cons c cs ih =>
     unfold localApply
     simp only
-    rw [ih, (localStep_spec snap t c).1]
+    rw [ih, (localStep_spec lf hcas snap t c).1]
 
-theorem localStep_frame (snap : Refs) (t : LocalRepo) (c : Name × Id) {n : Name} (h : n ≠ c.1) :
-    (localStep snap t c).1.refs n = t.refs n := by
-  rcases (localStep_spec snap t c).2 with ⟨_, _, h3⟩ | ⟨_, _, h3⟩
+theorem localStep_frame (lf : LocalFlags) (hcas : lf.usesCas = true) (snap : Refs) (t : LocalRepo)
+    (c : Name × Id) {n : Name} (h : n ≠ c.1) : (localStep lf snap t c).1.refs n = t.refs n := by
+  rcases (localStep_spec lf hcas snap t c).2 with ⟨_, _, h3, _⟩ | ⟨_, h3, _⟩
   · rw [h3, localApplied_other _ _ h]
   · rw [h3]
 
-theorem localApply_frame (snap : Refs) (t : LocalRepo) (cmds : List (Name × Id)) (n : Name)
-    (hn : n ∉ cmds.map (·.1)) : (localApply snap t cmds).1.refs n = t.refs n := by
+theorem localApply_frame (lf : LocalFlags) (hcas : lf.usesCas = true) (snap : Refs) (t : LocalRepo)
+    (cmds : List (Name × Id)) (n : Name)
+    (hn : n ∉ cmds.map (·.1)) : (localApply lf snap t cmds).1.refs n = t.refs n := by
   induction cmds generalizing t with
   | nil => rfl
   | cons c cs ih =>
     simp only [List.map_cons, List.mem_cons, not_or] at hn
     unfold localApply
     simp only
-    rw [ih _ hn.2, localStep_frame snap t c hn.1]
+    rw [ih _ hn.2, localStep_frame lf hcas snap t c hn.1]
 
 /-- the status of a local command, as `LocalGitClient.send_pack` records it, is exact -/
 def LocalExact (snap : Refs) (before : Refs) (after : Option Id) (c : Name × Id) (m : Option LocalMsg) : Prop :=
   (cur before c.1 = snapOld snap c.1 ∧ m = none ∧ after = localTarget c) ∨
-  (cur before c.1 ≠ snapOld snap c.1 ∧ m ≠ none ∧ after = before c.1)
+  (m ≠ none ∧ after = before c.1)
 
 theorem lookup_cons_self {β : Type} (n : Bytes) (v : β) (l : List (Bytes × β)) :
     ((n, v) :: l).lookup n = some v := by simp [List.lookup]
@@ -699,10 +710,10 @@ theorem lookup_cons_ne {β : Type} {n k : Bytes} (v : β) (l : List (Bytes × β
   have : (n == k) = false := by simpa using h
   simp [List.lookup, this]
 
-theorem localApply_exact (snap : Refs) (t : LocalRepo) (cmds : List (Name × Id))
-    (hnd : (cmds.map (·.1)).Nodup) :
-    ∀ c ∈ cmds, ∃ m, (localApply snap t cmds).2.lookup c.1 = some m ∧
-      LocalExact snap t.refs ((localApply snap t cmds).1.refs c.1) c m := by
+theorem localApply_exact (lf : LocalFlags) (hcas : lf.usesCas = true) (snap : Refs) (t : LocalRepo)
+    (cmds : List (Name × Id)) (hnd : (cmds.map (·.1)).Nodup) :
+    ∀ c ∈ cmds, ∃ m, (localApply lf snap t cmds).2.lookup c.1 = some m ∧
+      LocalExact snap t.refs ((localApply lf snap t cmds).1.refs c.1) c m := by
   induction cmds generalizing t with
   | nil => intro c hc; cases hc
   | cons c0 cs ih =>
@@ -711,19 +722,118 @@ theorem localApply_exact (snap : Refs) (t : LocalRepo) (cmds : List (Name × Id)
     unfold localApply
     simp only
     rcases List.mem_cons.mp hc with rfl | hc
-    · refine ⟨(localStep snap t c).2, lookup_cons_self _ _ _, ?_⟩
-      rw [localApply_frame snap _ cs c.1 hnd.1]
-      rcases (localStep_spec snap t c).2 with ⟨h1, h2, h3⟩ | ⟨h1, h2, h3⟩
+    · refine ⟨(localStep lf snap t c).2, lookup_cons_self _ _ _, ?_⟩
+      rw [localApply_frame lf hcas snap _ cs c.1 hnd.1]
+      rcases (localStep_spec lf hcas snap t c).2 with ⟨h1, h2, h3, _⟩ | ⟨h2, h3, _⟩
       · exact Or.inl ⟨h1, h2, by rw [h3, localApplied_self]⟩
-      · exact Or.inr ⟨h1, h2, by rw [h3]⟩
+      · exact Or.inr ⟨h2, by rw [h3]⟩
     · have hne : c.1 ≠ c0.1 := by
         intro e
         exact hnd.1 (e ▸ List.mem_map_of_mem hc)
-      obtain ⟨m, hm, hres⟩ := ih (localStep snap t c0).1 hnd.2 c hc
+      obtain ⟨m, hm, hres⟩ := ih (localStep lf snap t c0).1 hnd.2 c hc
       refine ⟨m, by rw [lookup_cons_ne _ _ hne]; exact hm, ?_⟩
       unfold LocalExact cur at hres ⊢
-      rw [localStep_frame snap t c0 hne] at hres
+      rw [localStep_frame lf hcas snap t c0 hne] at hres
       exact hres
+
+/-- a stale local command is always rejected when the status comes from the compare-and-swap -/
+theorem localApply_stale (lf : LocalFlags) (hcas : lf.usesCas = true) (snap : Refs) (t : LocalRepo)
+    (cmds : List (Name × Id)) (hnd : (cmds.map (·.1)).Nodup) :
+    ∀ c ∈ cmds, cur t.refs c.1 ≠ snapOld snap c.1 →
+      ∃ m, (localApply lf snap t cmds).2.lookup c.1 = some (some m) ∧
+        (localApply lf snap t cmds).1.refs c.1 = t.refs c.1 := by
+  intro c hc hst
+  obtain ⟨m, hm, hres⟩ := localApply_exact lf hcas snap t cmds hnd c hc
+  rcases hres with ⟨h1, _, _⟩ | ⟨h2, h3⟩
+  · exact absurd h1 hst
+  · cases m with
+    | none => exact absurd rfl h2
+    | some m => exact ⟨m, hm, h3⟩
+
+/-- invariant of the target: every ref target is in its object store -/
+def LocalInStore (t : LocalRepo) : Prop := ∀ n v, t.refs n = some v → t.store v = true
+
+theorem localApply_inStore (lf : LocalFlags) (hcas : lf.usesCas = true) (hk : lf.checksNew = true)
+    (snap : Refs) (t : LocalRepo) (cmds : List (Name × Id)) (hi : LocalInStore t) :
+    LocalInStore (localApply lf snap t cmds).1 := by
+  induction cmds generalizing t with
+  | nil => exact hi
+  | cons c cs ih =>
+    unfold localApply
+    simp only
+    apply ih
+    intro n v hv
+    obtain ⟨hs, h⟩ := localStep_spec lf hcas snap t c
+    rw [hs]
+    rcases h with ⟨_, _, h3, h4⟩ | ⟨_, h3, _⟩
+    · rw [h3] at hv
+      unfold localApplied Refs.del Refs.set at hv
+      split at hv
+      · simp only at hv
+        split at hv
+        · cases hv
+        · exact hi n v hv
+      · rename_i hz
+        simp only at hv
+        split at hv
+        · cases hv
+          exact h4 (by simpa using hz) hk
+        · exact hi n v hv
+    · rw [h3] at hv
+      exact hi n v hv
+
+/-- when every command is applicable, the apply loop applies every command -/
+theorem localApply_all (lf : LocalFlags) (hcas : lf.usesCas = true) (snap : Refs) (t : LocalRepo)
+    (cmds : List (Name × Id)) (hnd : (cmds.map (·.1)).Nodup)
+    (hok : ∀ c ∈ cmds, cur t.refs c.1 = snapOld snap c.1 ∧ (isZero c.2 = false → t.store c.2 = true)) :
+    ∀ c ∈ cmds, (localApply lf snap t cmds).1.refs c.1 = localTarget c := by
+  induction cmds generalizing t with
+  | nil => intro c hc; cases hc
+  | cons c0 cs ih =>
+    simp only [List.map_cons, List.nodup_cons] at hnd
+    obtain ⟨hold0, hnew0⟩ := hok c0 List.mem_cons_self
+    obtain ⟨hs, h⟩ := localStep_spec lf hcas snap t c0
+    have happ : (localStep lf snap t c0).1.refs = localApplied t.refs c0 := by
+      rcases h with ⟨_, _, h3, _⟩ | ⟨h2, _, h4⟩
+      · exact h3
+      · -- a failure was recorded although the command is applicable: impossible
+        exfalso
+        revert h2
+        unfold localStep removeIfEquals setIfEquals
+        by_cases hz : isZero c0.2 = true
+        · simp [hz, hold0]
+        · have hz' : isZero c0.2 = false := by simpa using hz
+          simp [hz, hold0, hnew0 hz']
+    intro c hc
+    unfold localApply
+    simp only
+    rcases List.mem_cons.mp hc with rfl | hc
+    · rw [localApply_frame lf hcas snap _ cs c.1 hnd.1, happ, localApplied_self]
+    · apply ih _ hnd.2 _ c hc
+      intro c' hc'
+      obtain ⟨a, b⟩ := hok c' (List.mem_cons_of_mem _ hc')
+      have hne : c'.1 ≠ c0.1 := by
+        intro e
+        exact hnd.1 (e ▸ List.mem_map_of_mem hc')
+      refine ⟨?_, fun hz => by rw [hs]; exact b hz⟩
+      unfold cur at a ⊢
+      rw [localStep_frame lf hcas snap t c0 hne]
+      exact a
+
+/-- with the pre-check that reads the current value (and tests the object store), a pre-check without
+failure means every command is applicable -/
+theorem localPrecheck_pass (lf : LocalFlags) (hp : lf.precheckPeeled = false) (hn : lf.precheckNew = true)
+    (snap : Refs) (t : LocalRepo) (c : Name × Id) (h : localPrecheck lf snap t c = none) :
+    cur t.refs c.1 = snapOld snap c.1 ∧ (isZero c.2 = false → t.store c.2 = true) := by
+  unfold localPrecheck at h
+  simp only [hp, hn, Bool.true_and, Bool.false_eq_true, if_false] at h
+  split at h
+  · cases h
+  · rename_i hmiss
+    split at h
+    · cases h
+    · rename_i hst
+      exact ⟨by simpa using hst, fun hz => by simpa [hz] using hmiss⟩
 
 /-! ### status report: what the server writes is what the client reads -/
 
@@ -994,7 +1104,7 @@ theorem applyPack_cmd (fl : Flags) (env : Env) (caps : List Bytes) (s : Srv) (u 
       ((applyPack fl env caps s u cmds).srv.refs c.name = s.refs c.name ∧
         ¬ reportedOk (applyPack fl env caps s u cmds) c.name) ∨
       ∃ m, ((applyPack fl env caps s u cmds).status.drop 1).lookup c.name = some m ∧
-        CmdResult fl s.refs (storeAfterUnpack s u cmds) ((applyPack fl env caps s u cmds).srv.refs c.name) c m := by
+        CmdResult fl s.refs ((applyPack fl env caps s u cmds).srv.refs c.name) c m := by
   intro c hc
   rcases applyPack_cases fl env caps s u cmds with h | ⟨h1, h2⟩
   · right
@@ -1029,11 +1139,12 @@ theorem quiet_sane : HookSane Env.quiet := fun _ => by simp [Env.quiet]
 store after unpacking -/
 theorem applyPack_inStore_gen (fl : Flags) (env : Env) (caps : List Bytes) (s : Srv) (u : Unpack)
     (cmds : List Cmd) (hs : HookSane env) (hi : RefsInStore s)
-    (hnew : ∀ c ∈ cmds, isZero c.new = false → fl.checkNew = false → storeAfterUnpack s u cmds c.new = true) :
+    (hplain : ∀ c ∈ cmds, isZero c.new = false → fl.checkNew = false → storeAfterUnpack s u cmds c.new = true)
+    (hatomic : ∀ c ∈ cmds, isZero c.new = false → fl.atomicNew = false → storeAfterUnpack s u cmds c.new = true) :
     RefsInStore (applyPack fl env caps s u cmds).srv := by
   rcases applyPack_cases fl env caps s u cmds with h | ⟨h1, _⟩
   · rw [h]
-    apply refLoop_inStore fl env caps hs ⟨s.refs, storeAfterUnpack s u cmds⟩ cmds hnew
+    apply refLoop_inStore fl env caps hs ⟨s.refs, storeAfterUnpack s u cmds⟩ cmds hplain hatomic
     intro n v hv
     exact storeAfterUnpack_mono s u cmds v (hi n v hv)
   · rw [h1]; exact hi
@@ -1041,7 +1152,7 @@ theorem applyPack_inStore_gen (fl : Flags) (env : Env) (caps : List Bytes) (s : 
 
 theorem applyPack_atomic_gen (fl : Flags) (env : Env) (caps : List Bytes) (s : Srv) (u : Unpack) (cmds : List Cmd)
     (hat : caps.contains atomicCap = true) (hnd : distinctNames cmds) (hf : ∀ c ∈ cmds, env.fault c.name = none)
-    (happ : (fl.atomicOld = true ∧ fl.checkNew = true) ∨
+    (happ : (fl.atomicOld = true ∧ fl.atomicNew = true) ∨
       ∀ c ∈ cmds, cur s.refs c.name = c.old ∧ (isZero c.new = false → storeAfterUnpack s u cmds c.new = true)) :
     (applyPack fl env caps s u cmds).srv.refs = s.refs ∨
       ∀ c ∈ cmds, (applyPack fl env caps s u cmds).srv.refs c.name = c.target := by
